@@ -101,8 +101,10 @@ def run(ctx):
                     "lagrange_row_spec, verifier_lagrange_agrees, table_with_lagrange, lagrange_term_is_poly, lagrange_boundary_is_poly, lag_def_is_poly, "
                     "composition_is_definition_lagrange_partial, lag_def_is_poly_honest, mixed_ops_are_embedded, boundary_repr_equiv_ext, ext_f64_embeddings, "
                     "evaluate_mixed_embeds, table_row_spec_single_segment_ext, composition_is_definition_ext, ext_f64_whole_pipeline, "
-                    "composition_is_definition_lagrange (closed), verifier_evaluate_constraints_mixed_embeds, verifier_evaluate_constraints_ext; all for any field with FLaws and all sizes",
-        "correspondence_only": "extension fields: the multi-segment PROVER path and the Lagrange terms over E (falsifier only; the single-segment prover path and the whole verifier are covered by the _ext / _mixed_embeds theorems)",
+                    "composition_is_definition_lagrange (closed), verifier_evaluate_constraints_mixed_embeds, verifier_evaluate_constraints_ext, "
+                    "evaluate_mixed_full_embeds, table_row_spec_multi_segment_ext, composition_is_definition_aux_ext, composition_is_definition_ext_closed; "
+                    "all for any field with FLaws and all sizes",
+        "correspondence_only": "extension fields: the Lagrange terms over E (falsifier only; both prover paths and the whole verifier are covered by the _ext / _mixed_embeds theorems)",
         "falsifier_mutation_tests": "notes/C17.design.md: 9 seeded changes on a private copy of /repo, all reported at the quick budget",
     }
     ctx.trusted.insert(0, "Coq 8.16.1 kernel; Print Assumptions under every theorem")
